@@ -33,7 +33,17 @@
      step, then restrict; every step through the bounded model, two budgets) - and must predict
      out-of-memory or not, the stored nodes (mtbdd: and stored terminals) afterwards - after a failure the
      garbage, as for bdd - and the value table of the result.  The hypotheses of the theorems
-     ([bcok_b]; [zbdd_ok_b] and [zchain_ok_b]; [mt_ok_b]) must hold on every such snapshot. *)
+     ([bcok_b]; [zbdd_ok_b] and [zchain_ok_b]; [mt_ok_b]) must hold on every such snapshot.
+   - C14z (remaining operations): the extracted bounded models of coq/Mgr/OomBddQ.v (plain BDD: exists / forall /
+     unique, apply_exists / apply_forall / apply_unique, restrict, substitute incl. substitute_prepare),
+     OomBcddQ.v (the same for BCDD), OomZbddV.v (ZBDD subset0 / subset1 / change, restrict, var / not_var) and
+     OomTdd.v (TDD not / 8 operators / ite / var) predict the same observables for EXISTS / FORALL / UNIQUE /
+     AEX / AFA / AUQ / RESTRICT / SUBST (bdd, bcdd), SUBSET0 / SUBSET1 / CHANGE / RESTRICT (zbdd) and T3NOT /
+     T3AND .. T3IMPS / T3ITE / T3VAR (tdd).  The harness builds the variable set / literal cube of these
+     operations itself ([BoolInterp::cube]: t, then for v = n-1 .. 0: var(v)? resp. not_var(v)?, and(acc)?):
+     every step of that construction goes through the bounded model as well; the first failing step is the
+     outcome, what the earlier steps created stays stored.  A substitution's replacement functions are the
+     handles 1000000 + 100 * sid + i of the snapshot (the substitution object owns clones). *)
 open Conv
 
 (* ---- trace parsing (self-contained copies of the few helpers of ocaml/dd_types.ml that this
@@ -88,10 +98,11 @@ let parse_snapshot (kname : string) (body : string) : psnap =
     | "bcdd", _ -> n_of_int 1
     | "zbdd", "Empty" -> n_of_int 0 | "zbdd", "Base" -> n_of_int 1
     | "mtbdd", _ -> Model.code (i64v_of_string v)
+    | "tdd", "False" -> n_of_int 0 | "tdd", "Unknown" -> n_of_int 1 | "tdd", "True" -> n_of_int 2
     | _, _ -> failwith ("terminal " ^ v) in
   let kind =
     match kname with
-    | "bcdd" -> Model.KBcdd | "zbdd" -> Model.KZbdd | "mtbdd" -> Model.KMtbdd | _ -> Model.KBdd in
+    | "bcdd" -> Model.KBcdd | "zbdd" -> Model.KZbdd | "mtbdd" -> Model.KMtbdd | "tdd" -> Model.KTdd | _ -> Model.KBdd in
   List.iter
     (fun piece ->
       match split_ws piece with
@@ -118,15 +129,20 @@ let parse_snapshot (kname : string) (body : string) : psnap =
 type vt = string array       (* index = assignment (bit v = variable v), value = code *)
 
 (* the extracted interpreter [sem_edge] on every assignment *)
+let pow3 (n : int) : int = let rec go k acc = if k = 0 then acc else go (k - 1) (3 * acc) in go n 1
+
+(* (tdd: index = assignment in base 3, digit v = child index taken at variable v) *)
 let value_table (ps : psnap) (e : Model.edge) : vt option =
   let n = Array.length ps.l2v in
-  let size = 1 lsl n in
+  let tdd = (match ps.snap.Model.s_kind with Model.KTdd -> true | _ -> false) in
+  let size = if tdd then pow3 n else 1 lsl n in
   let res = Array.make size "?" in
   let ok = ref true in
   for a = 0 to size - 1 do
     let c (lvl : Model.nat) : Model.nat =
       let l = int_of_nat lvl in
-      if l < n && (a lsr ps.l2v.(l)) land 1 = 1 then Model.O else Model.S Model.O in
+      if tdd then (if l < n then nat (a / pow3 ps.l2v.(l) mod 3) else Model.O)
+      else if l < n && (a lsr ps.l2v.(l)) land 1 = 1 then Model.O else Model.S Model.O in
     match Model.sem_edge ps.snap e c with
     | Some v -> res.(a) <- string_of_n v
     | None -> ok := false
@@ -239,16 +255,53 @@ let mt_restrict_composite (ncap : Model.nat) (ntcap : Model.nat) (s : Model.snap
   with Out o -> o
 
 
+(* ---- C14z: quantification / restrict / substitute, ZBDD subset ops, TDD ------------------------- *)
+exception Out of outcome
+let take (o : outcome) : Model.snap * Model.edge =
+  match o with
+  | (0, Some s', Some e) -> (s', e)
+  | (1, st, _) -> raise (Out (1, st, None))
+  | _ -> raise (Out (2, None, None))
+let of_res r : outcome =
+  (int_of_nat (Model.res_code r), Model.res_snap r, (match Model.res_ref r with Some rr -> Some (untagged rr) | None -> None))
+
+(* [BoolInterp::cube(pos, neg)] of the harness: acc = t; for v = n-1 downto 0: var(v)? resp. not_var(v)?, then
+   lit.and(acc)?; the intermediate handles are dropped (their nodes stay stored) *)
+let cube (mkvar : Model.snap -> int -> bool -> outcome) (conj : Model.snap -> Model.edge -> Model.edge -> outcome)
+    (top : Model.edge) (s : Model.snap) (n : int) (pos : int) (neg : int) : Model.snap * Model.edge =
+  let st = ref s and acc = ref top in
+  for v = n - 1 downto 0 do
+    let lit = if (pos lsr v) land 1 = 1 then Some false else if (neg lsr v) land 1 = 1 then Some true else None in
+    match lit with
+    | None -> ()
+    | Some ng ->
+      let s1, x = take (mkvar !st v ng) in
+      let s2, a = take (conj s1 x !acc) in
+      st := s2; acc := a
+  done;
+  (!st, !acc)
+
+let quant_of = function
+  | "EXISTS" | "AEX" -> Some Model.QExists | "FORALL" | "AFA" -> Some Model.QForall
+  | "UNIQUE" | "AUQ" -> Some Model.QUnique | _ -> None
+let t3_bop_of = function
+  | "T3AND" -> Some Model.And | "T3OR" -> Some Model.Or | "T3NAND" -> Some Model.Nand | "T3NOR" -> Some Model.Nor
+  | "T3XOR" -> Some Model.Xor | "T3EQUIV" -> Some Model.Equiv | "T3IMP" -> Some Model.Imp
+  | "T3IMPS" -> Some Model.ImpStrict | _ -> None
+
 let () =
   iter_cases stdin (fun c ->
       let kname = match param c "kind" with Some k -> k | None -> "bdd" in
+      (* sid -> variables of the substitution created by the last successful MKSUBST *)
+      let substs : (int, int list) Hashtbl.t = Hashtbl.create 8 in
       let cap = param_int c "cap" (1 lsl 16) in
       let threads = param_int c "threads" 1 in
       let retry_at = param_int c "retry_at" (-1) in
       let tcap = param_int c "tcap" (1 lsl 12) in
       (* below 100 node slots the background collector is disabled; a large store never reaches its threshold *)
       let predictable =
-        ((kname = "bdd" || kname = "bcdd" || kname = "zbdd") && cap < 100) || (kname = "mtbdd" && (cap < 100 || cap >= 4096)) in
+        ((kname = "bdd" || kname = "bcdd" || kname = "zbdd" || kname = "tdd") && cap < 100)
+        || (kname = "mtbdd" && (cap < 100 || cap >= 4096)) in
       let ntcap = nat tcap in
       let failed = ref false in
       let fail step kind msg =
@@ -322,6 +375,7 @@ let () =
                      | "bcdd" -> (Model.bcok_b ps.snap, "bcok_b")
                      | "zbdd" -> (Model.zbdd_ok_b ps.snap && Model.zchain_ok_b ps.snap, "zbdd_ok_b / zchain_ok_b")
                      | "mtbdd" -> (Model.mt_ok_b ps.snap, "mt_ok_b")
+                     | "tdd" -> (Model.td_ok_b ps.snap, "td_ok_b")
                      | _ -> (Model.bdd_ok_b ps.snap, "bdd_ok_b") in
                    if not ok then
                      fail i "prop" (what ^ " false on a snapshot (not a well-formed table of its kind: hypothesis of the C14 theorems / state after an error)"));
@@ -333,6 +387,13 @@ let () =
               pending := None;
               let is_oom = starts_with res "err oom" in
               if is_oom then stat "oom" 1;
+              (match toks with
+               | "MKSUBST" :: sid :: pairs when res = "ok" ->
+                 Hashtbl.replace substs (int_of_string sid)
+                   (List.map (fun p -> int_of_string (List.hd (String.split_on_char '=' p))) pairs)
+               | [ "DROPSUBST"; sid ] -> Hashtbl.remove substs (int_of_string sid)
+               | [ "DROPALL" ] -> Hashtbl.reset substs
+               | _ -> ());
               if is_oom && retry_at >= 0 && k >= retry_at then
                 fail i "prop"
                   (Printf.sprintf "%s fails with out-of-memory in the retry after drop + gc although the capacity %d is at least the measured need %d"
@@ -409,8 +470,140 @@ let () =
                                               (int_of_string pos) (int_of_string neg))
                        | None -> None)
                     | _ -> None in
+                  (* C14z: quantification / restrict / substitute (bdd), TDD *)
+                  let nvars = Array.length ps.l2v in
+                  let guard dst (f : unit -> outcome) : (int * outcome) option =
+                    Some (slot_of dst, (try f () with Out o -> o)) in
+                  let bdd_cube pos neg =
+                    let top = match Model.term_of s0 true with
+                      | Some t -> untagged (Model.RT t) | None -> raise (Out (2, None, None)) in
+                    cube (fun s v ng -> of_ins s untagged (Model.mk_var_cap ncap s (nat v) ng))
+                      (fun s x a -> of_res (Model.bin_nc ncap false s Model.OAnd x.Model.eref a.Model.eref))
+                      top s0 nvars pos neg in
+                  (* the hypotheses of the theorems about a call ([cqcall_ok_b], [zvcall_ok_b]) are evaluated on the
+                     table the call is issued in *)
+                  let cq_run (s : Model.snap) (k : Model.cqcall) : outcome =
+                    stat "chk_cqcall_ok" 1;
+                    if not (Model.cqcall_ok_b s k) then raise (Out (3, None, None));
+                    of_gres_edge (Model.cq_run_nc ncap false s k) in
+                  let zv_run (s : Model.snap) (k : Model.zvcall) : outcome =
+                    stat "chk_zvcall_ok" 1;
+                    if not (Model.zvcall_ok_b s k) then raise (Out (3, None, None));
+                    of_gres_ref (Model.zv_run_nc ncap false s k) in
+                  let bcdd_cube pos neg =
+                    let top = match Model.cget_terminal s0 true with
+                      | Some t -> t | None -> raise (Out (2, None, None)) in
+                    cube (fun s v ng -> of_ins s (fun e -> e) (Model.cmk_var_cap ncap s (nat v) ng))
+                      (fun s x a -> of_gres_edge (Model.cop_nc ncap false s Model.OAnd x a))
+                      top s0 nvars pos neg in
+                  (* ZBDD: t = tautology(0); var_edge (with its don't-care loop) / default not_var_edge; and = intsec *)
+                  let zbdd_cube pos neg =
+                    let top = match Model.zconst s0 true with
+                      | Some t -> untagged t | None -> raise (Out (2, None, None)) in
+                    cube (fun s v ng -> zv_run s (if ng then Model.ZVNotVar (nat v) else Model.ZVVar (nat v)))
+                      (fun s x a -> of_gres_ref (Model.zop_nc ncap false s Model.OAnd x.Model.eref a.Model.eref))
+                      top s0 nvars pos neg in
+                  (* the replacement functions of substitution [sid]: the handles 1000000 + 100 * sid + i *)
+                  let subst_pairs (sid : int) : (int * Model.edge) list option =
+                    match Hashtbl.find_opt substs sid with
+                    | None -> None
+                    | Some vars ->
+                      let reps = List.mapi (fun i _ -> List.assoc_opt (1_000_000 + sid * 100 + i) ps.handles) vars in
+                      if List.exists (fun x -> x = None) reps then None
+                      else Some (List.map2 (fun v r -> (v, match r with Some e -> e | None -> assert false)) vars reps) in
+                  let run_z : (int * outcome) option =
+                    match kname, toks with
+                    | "bdd", [ (("EXISTS" | "FORALL" | "UNIQUE") as w); dst; a; mask ] ->
+                      (match href a, quant_of w with
+                       | Some f, Some q ->
+                         guard dst (fun () ->
+                             let s1, vars = bdd_cube (int_of_string mask) 0 in
+                             of_gres_ref (Model.qrun_nc ncap false s1 (Model.KQuant (q, f, vars.Model.eref))))
+                       | _ -> None)
+                    | "bdd", [ (("AEX" | "AFA" | "AUQ") as w); op; dst; a; b; mask ] ->
+                      (match href a, href b, quant_of w, bop_of op with
+                       | Some f, Some g, Some q, Some o ->
+                         guard dst (fun () ->
+                             let s1, vars = bdd_cube (int_of_string mask) 0 in
+                             of_gres_ref (Model.qrun_nc ncap false s1 (Model.KApplyQuant (q, o, f, g, vars.Model.eref))))
+                       | _ -> None)
+                    | "bdd", [ "RESTRICT"; dst; a; pos; neg ] ->
+                      (match href a with
+                       | Some f ->
+                         guard dst (fun () ->
+                             let s1, vars = bdd_cube (int_of_string pos) (int_of_string neg) in
+                             of_gres_ref (Model.qrun_nc ncap false s1 (Model.KRestrict (f, vars.Model.eref))))
+                       | None -> None)
+                    | "bdd", [ "SUBST"; dst; a; sid ] ->
+                      (match href a, subst_pairs (int_of_string sid) with
+                       | Some f, Some pairs ->
+                         guard dst (fun () ->
+                             of_gres_ref (Model.qrun_nc ncap false s0
+                                            (Model.KSubst (f, List.map (fun (v, e) -> (nat v, e.Model.eref)) pairs, n_of_int 0))))
+                       | _ -> None)
+                    | "bcdd", [ (("EXISTS" | "FORALL" | "UNIQUE") as w); dst; a; mask ] ->
+                      (match hedge a, quant_of w with
+                       | Some f, Some q ->
+                         guard dst (fun () ->
+                             let s1, vars = bcdd_cube (int_of_string mask) 0 in
+                             cq_run s1 (Model.CQQuant (q, f, vars)))
+                       | _ -> None)
+                    | "bcdd", [ (("AEX" | "AFA" | "AUQ") as w); op; dst; a; b; mask ] ->
+                      (match hedge a, hedge b, quant_of w, bop_of op with
+                       | Some f, Some g, Some q, Some o ->
+                         guard dst (fun () ->
+                             let s1, vars = bcdd_cube (int_of_string mask) 0 in
+                             cq_run s1 (Model.CQApplyQuant (q, o, f, g, vars)))
+                       | _ -> None)
+                    | "bcdd", [ "RESTRICT"; dst; a; pos; neg ] ->
+                      (match hedge a with
+                       | Some f ->
+                         guard dst (fun () ->
+                             let s1, vars = bcdd_cube (int_of_string pos) (int_of_string neg) in
+                             cq_run s1 (Model.CQRestrict (f, vars)))
+                       | None -> None)
+                    | "bcdd", [ "SUBST"; dst; a; sid ] ->
+                      (match hedge a, subst_pairs (int_of_string sid) with
+                       | Some f, Some pairs ->
+                         guard dst (fun () ->
+                             cq_run s0 (Model.CQSubst (f, List.map (fun (v, e) -> (nat v, e)) pairs, n_of_int 0)))
+                       | _ -> None)
+                    | "zbdd", [ (("SUBSET0" | "SUBSET1" | "CHANGE") as w); dst; a; v ] ->
+                      (match href a with
+                       | Some f ->
+                         let o = (match w with "SUBSET0" -> Model.ZSubset0 | "SUBSET1" -> Model.ZSubset1 | _ -> Model.ZChange) in
+                         guard dst (fun () -> zv_run s0 (Model.ZVSubset (o, f, nat (int_of_string v))))
+                       | None -> None)
+                    | "zbdd", [ (("VAR" | "NVAR") as w); dst; v ] ->
+                      let v = nat (int_of_string v) in
+                      guard dst (fun () -> zv_run s0 (if w = "VAR" then Model.ZVVar v else Model.ZVNotVar v))
+                    | "zbdd", [ "RESTRICT"; dst; a; pos; neg ] ->
+                      (match href a with
+                       | Some f ->
+                         guard dst (fun () ->
+                             let s1, vars = zbdd_cube (int_of_string pos) (int_of_string neg) in
+                             zv_run s1 (Model.ZVRestrict (f, vars.Model.eref)))
+                       | None -> None)
+                    | "tdd", [ "T3NOT"; dst; a ] ->
+                      (match href a with
+                       | Some f -> Some (slot_of dst, of_gres_ref (Model.trun_nc ncap s0 (Model.TCNot f)))
+                       | None -> None)
+                    | "tdd", [ op; dst; a; b ] when t3_bop_of op <> None ->
+                      (match href a, href b, t3_bop_of op with
+                       | Some f, Some g, Some o -> Some (slot_of dst, of_gres_ref (Model.trun_nc ncap s0 (Model.TCBin (o, f, g))))
+                       | _ -> None)
+                    | "tdd", [ "T3ITE"; dst; a; b; cc ] ->
+                      (match href a, href b, href cc with
+                       | Some f, Some g, Some h -> Some (slot_of dst, of_gres_ref (Model.trun_nc ncap s0 (Model.TCIte (f, g, h))))
+                       | _ -> None)
+                    | "tdd", [ "T3VAR"; dst; v ] ->
+                      Some (slot_of dst, of_ins s0 untagged (Model.td_var_cap ncap s0 (nat (int_of_string v))))
+                    | _ -> None in
+                  let is_z = (match run_z with Some _ -> true | None -> false) in
+                  if is_z then stat ("predictions_z_" ^ kname) 1;
                   let run =
-                    if kname <> "bdd" then (match run_other with Some (d, o) -> Some (d, `O o) | None -> None)
+                    if is_z then (match run_z with Some (d, o) -> Some (d, `O o) | None -> None)
+                    else if kname <> "bdd" then (match run_other with Some (d, o) -> Some (d, `O o) | None -> None)
                     else
                     match toks with
                     | [ ("NOT" | "NOTO"); dst; a ] ->
@@ -438,7 +631,9 @@ let () =
                       | `V (Some (Some (s', rr))) -> (0, Some s', Some (untagged rr))
                       | `O o -> o in
                     if kname <> "bdd" then stat ("predictions_" ^ kname) 1;
-                    if code = 2 then fail i "corr" (Printf.sprintf "%s: the bounded model is stuck (model hypotheses violated)" ops)
+                    if code = 3 then
+                      fail i "corr" (Printf.sprintf "%s: the operands do not satisfy the hypothesis of the theorems (cqcall_ok_b / zvcall_ok_b false)" ops)
+                    else if code = 2 then fail i "corr" (Printf.sprintf "%s: the bounded model is stuck (model hypotheses violated)" ops)
                     else (
                       stat (if code = 1 then "model_oom" else "model_ok") 1;
                       if (code = 1) <> is_oom then
@@ -458,6 +653,8 @@ let () =
                             stat "model_oom_with_garbage" 1;
                             if kname <> "bdd" then stat ("model_oom_with_garbage_" ^ kname) 1);
                           if code = 1 && kname <> "bdd" then stat ("model_oom_" ^ kname) 1;
+                          if code = 1 && is_z then stat ("model_oom_z_" ^ kname) 1;
+                          if code = 1 && is_z && cnt > ps.listed then stat ("model_oom_with_garbage_z_" ^ kname) 1;
                           if code = 1 && kname = "mtbdd" && cnt < cap then stat "model_oom_terminal_store" 1;
                           let tab =
                             match rref with
@@ -504,7 +701,8 @@ let () =
                                     | Some s2, Some t2 -> Some (s2, int_of_nat t2)
                                     | _ -> None in
                           pending := Some { pcode = code; pcount = cnt; pfull = max cap ps.listed; ptable = tab; pwhat = ops;
-                                            pdst = dst; pstep = i; pown = own; pterms = tcnt; pexact = (kname = "mtbdd") })))
+                                            pdst = dst; pstep = i; pown = own; pterms = tcnt;
+                                            pexact = (kname = "mtbdd" || kname = "tdd") })))
         c.lines;
       stat "cases" 1;
       stat "steps" (List.length c.lines);
